@@ -206,6 +206,7 @@ fn replay(cases: &str, answers: &str) {
         let o = exec(&mut st, base, &nodes[i].call);
         // `new` is at depth 0 and fills slot 0; a call at depth k >= 1 reads slot k-1 and fills slot k
         let d = depth.saturating_sub(1);
+        assert!(depth < 16, "case longer than the 16 slots of CubicTrace");
         let mut v = line(&nodes[i].call, d, &st, &o);
         if let Some(k) = nodes[i].case {
             v["case"] = json!(k);
